@@ -7,6 +7,18 @@ ids = [json.loads(l)["id"] for l in open(os.path.join(ROOT, "properties.jsonl"))
 
 TECH = "deterministic whole-program simulation (std-facade substitution under a seeded scheduler) with fault injection; "
 CLAIMED = {
+    "C05": dict(
+        level="exploration", ref="DESIGN.md 5/C05",
+        text="A real primary accumulates a seeded history over 1-3 databases; the second real node has never been up, was killed or was shut down by SIGINT (with or without a snapshot on its simulated disk) and then (re)joins through the real join / election / replicate-since protocol while a writer keeps writing on the primary; at quiescence its white-box dump must equal the primary's (token, strategy, values byte for byte, versions, removed keys). Fault sequences = departure kind x split of the history x writes racing the synchronisation.",
+        note="runs whose join does not settle are discarded unless a node panicked; most violation classes on the pinned tree are recorded known findings (catch-up format pinned by unit tests)",
+        technique=TECH + "rejoin fault sequences with a dataset-equality oracle at quiescence",
+    ),
+    "C15": dict(
+        level="exploration", ref="DESIGN.md 5/C15",
+        text="(a) 2-4 tasks call the real register_pending_opp / acknowledge_pending_opp on the Databases of a booted node under lock-level interleavings (duplicates, early and foreign acks); return values and final counters must be explained by some real-time-consistent order against a set model. (b) The same accounting end to end in a 2-3 node cluster with a rogue authenticated peer injecting duplicate / unknown / foreign ack lines; pending_ops must return to 0 at quiescence and rogue acks must change nothing observable.",
+        note="each (op,node) pair registered at most once; shuttle SeqCst",
+        technique=TECH + "linearizability-style explanation of the accounting calls against a set model, plus end-to-end observation in the cluster",
+    ),
     "C04": dict(
         level="exploration", ref="DESIGN.md 5/C04",
         text="2-3 real nodes form a cluster through the real join/election protocol over the simulated TCP (FIFO links, latency/jitter); 1-8 operations are issued by sessions at arbitrary nodes (sequentially with quiescence in between, back to back, or from two concurrent clients on the primary); at quiescence the white-box dump of every node (databases, strategy, per-key value / removed-or-live / version) must equal the primary's. Seeded search over programs x delivery interleavings.",
